@@ -145,6 +145,93 @@ def run(chk):
                        '%s:%d' % (fi.module.relpath, n.lineno), key='C15-I|%s|%s[%d]|%s' % (fq, n.value.id, k, bctx[:60]))
     chk.floor('constant-index header subscripts', nsub, 5)
 
+    # ---- K: structure lookups keyed by names computed from the input are guarded
+    chk.rule('C15-K', 'in the parser, every lookup of a structure dictionary (references / message profile) by a name computed from '
+                      'the input is guarded (try/except KeyError, `in` test or .get): a position the structure does not define must '
+                      'not leak KeyError')
+    nlook = 0
+    for fq in sorted(ix.functions):
+        if not fq.startswith('parser.'):
+            continue
+        fi = ix.functions[fq]
+        dict_params = {p_ for p_ in fi.params if p_ in ('references', 'reference', 'message_profile')}
+        for n in own_nodes(fi.node):
+            if isinstance(n, ast.Subscript) and isinstance(n.ctx, ast.Load) and isinstance(n.value, ast.Name) and \
+                    n.value.id in dict_params and not isinstance(n.slice, ast.Constant):
+                nlook += 1
+                guarded = False
+                p_ = n
+                while p_ is not None and p_ is not fi.node:
+                    par = getattr(p_, '_parent', None)
+                    if isinstance(par, ast.Try) and any(p_ is b for b in par.body) and any(
+                            h.type is None or any(x in norm(h.type) for x in ('KeyError', 'LookupError', 'Exception'))
+                            for h in par.handlers):
+                        guarded = True
+                    p_ = par
+                bctx = branch_context(n)
+                if (' in %s' % n.value.id) in bctx and 'not in' not in bctx:
+                    guarded = True
+                if not guarded:
+                    # the identical lookup was already made earlier under a KeyError guard that leaves the function
+                    for m_ in own_nodes(fi.node):
+                        if isinstance(m_, ast.Subscript) and m_ is not n and norm(m_) == norm(n) and m_.lineno < n.lineno:
+                            q_ = m_
+                            while q_ is not None and q_ is not fi.node:
+                                par = getattr(q_, '_parent', None)
+                                if isinstance(par, ast.Try) and any(q_ is b for b in par.body) and any(
+                                        h.type is not None and 'KeyError' in norm(h.type) and
+                                        any(isinstance(x, ast.Raise) for x in ast.walk(h)) for h in par.handlers):
+                                    guarded = True
+                                q_ = par
+                chk.ob('C15-K', '%s: `%s`' % (fq, norm(n)[:50]), guarded,
+                       '' if guarded else 'lookup by a computed name without KeyError guard (its siblings catch KeyError and fall back to '
+                       'no reference): input with more pieces than the structure defines leaks KeyError', '%s:%d' % (fi.module.relpath, n.lineno),
+                       key='C15-K|%s|%s' % (fq, norm(n)[:50]))
+    chk.floor('guarded structure lookups in the parser', nlook, 4)
+
+    # ---- N: a variable that a failed lookup leaves None is not dereferenced
+    chk.rule('C15-N', 'when a guarded lookup fails (except-handler that neither assigns the variable nor leaves the function), the '
+                      'variable it should have set is not subscripted afterwards')
+    nn = 0
+    for fn in te.funcs:
+        if not (fn.module.name in ('validation', 'parser') or fn.qualname.startswith('core.')):
+            continue
+        for n in own_nodes(fn.node):
+            if not (isinstance(n, ast.If) and isinstance(n.test, ast.Compare) and len(n.test.ops) == 1 and
+                    isinstance(n.test.ops[0], ast.Is) and isinstance(n.test.left, ast.Name) and
+                    isinstance(n.test.comparators[0], ast.Constant) and n.test.comparators[0].value is None):
+                continue
+            var = n.test.left.id
+            for st in n.body:
+                if not isinstance(st, ast.Try):
+                    continue
+                assigns = any(isinstance(x, ast.Assign) and norm(x.targets[0]) == var for b in st.body for x in ast.walk(b))
+                if not assigns:
+                    continue
+                for h in st.handlers:
+                    leaves = any(isinstance(x, (ast.Raise, ast.Return, ast.Continue, ast.Break)) for x in ast.walk(h))
+                    sets = any(isinstance(x, ast.Assign) and norm(x.targets[0]) == var for x in ast.walk(h))
+                    if leaves or sets:
+                        continue
+                    nn += 1
+                    # is the variable subscripted after the if-statement on the fall-through path?
+                    g = cfg_of(fn)
+                    hn = g.handler_entry.get(id(h))
+                    after = g.reach(hn, labels_ok=lambda a, b, lab: lab != 'exc') if hn else set()
+                    deref = None
+                    for nid in after:
+                        nd = g.nodes[nid]
+                        for x in ast.walk(nd.ast) if nd.kind in ('stmt', 'test') else ():
+                            if isinstance(x, ast.Subscript) and isinstance(x.value, ast.Name) and x.value.id == var and \
+                                    isinstance(x.ctx, ast.Load):
+                                # not re-tested in between
+                                deref = deref or (nd.lineno, norm(x))
+                    chk.ob('C15-N', '%s: `%s` after the failed lookup' % (fn.qualname, var), deref is None,
+                           '' if deref is None else 'the handler `except %s` leaves %s as None and execution continues to `%s` '
+                           '(line %d): TypeError instead of a report' % (norm(h.type) if h.type else '', var, deref[1], deref[0]),
+                           '%s:%d' % (fn.module.relpath, h.lineno), key='C15-N|%s|%s' % (fn.qualname, var))
+    chk.count('failed-lookup handlers examined', nn)
+
     # ---- A
     fs = ix.func('core.ElementFinder._parse_structure')
     keys = set(te.returned_dict_items(fs))
